@@ -103,6 +103,9 @@ fn dead_downstream_ex(mine_timeout_after: u32, step: u32) -> Option<(u32, u32, O
 		if fail_h.is_some() { break 'outer; }
 	}
 	if let Some(fh) = fail_h { log.push(format!("{}:fail", fh)); }
+	// canonical order: by height, then in block_confirmed's stage order (scan -> fail-back stages -> claims); the three are observed
+	// through different channels (broadcaster list vs. events), so their order inside one block is not observable here
+	log.sort_by_key(|e| { let mut it = e.split(':'); let h: u32 = it.next().unwrap().parse().unwrap(); let r = match it.next().unwrap() { "down" => 0, "fail" => 1, _ => 2 }; (h, r) });
 	std::mem::forget(net);
 	Some((out_cltv, in_cltv, close_h, fail_h, timeout_conf, best0, deliv, log))
 }
